@@ -26,8 +26,8 @@ func main() {
 		roundEdges(atoi(os.Args[2]), atoi(os.Args[3]), ilist(os.Args[4]), ilist(os.Args[5]), ilist(os.Args[6]))
 	case "round-record": // N C proposers endorsers committers : histories on stdin -> observed events
 		roundRecord(atoi(os.Args[2]), atoi(os.Args[3]), ilist(os.Args[4]), ilist(os.Args[5]), ilist(os.Args[6]))
-	case "select": // draws per config, chosen seeds per config, draws per large/skewed config, of which recomputed by TLC
-		selectRecord(atoi(os.Args[2]), atoi(os.Args[3]), atoi(os.Args[4]), atoi(os.Args[5]))
+	case "select": // draws per config, chosen seeds per config, draws per large/skewed config, of which recomputed by TLC, seeds per round-after-config-block row
+		selectRecord(atoi(os.Args[2]), atoi(os.Args[3]), atoi(os.Args[4]), atoi(os.Args[5]), atoi(os.Args[6]))
 	default:
 		vio.Fatal("unknown command %s", os.Args[1])
 	}
